@@ -14,8 +14,10 @@ EAnyErr == EErrs(Codes)
 (***************************************************************************)
 (* C12  logic                                                              *)
 (***************************************************************************)
-TruthDefined(v) == v.t \in {"bool", "num", "blank"}
-Truth(v) == IF v.t = "bool" THEN v.b ELSE IF v.t = "num" THEN v.n # 0 ELSE FALSE
+(* a float with no small exact value ("flt") or an integer beyond TLC's range ("big") is a number other than zero *)
+OtherNumber(v) == (v.t = "flt" /\ v.r \notin {"nan", "inf", "-inf"}) \/ v.t = "big"
+TruthDefined(v) == v.t \in {"bool", "num", "blank"} \/ OtherNumber(v)
+Truth(v) == IF v.t = "bool" THEN v.b ELSE IF v.t = "num" THEN v.n # 0 ELSE OtherNumber(v)
 
 Flat(args) == FlattenSeq(args)
 
@@ -67,14 +69,14 @@ SwitchExpect(t, rest) ==
 (***************************************************************************)
 (* C12 / C08  type predicates and error trapping                           *)
 (***************************************************************************)
-Classified(v) == v.t \in {"num", "txt", "bool", "blank", "err"}
+Classified(v) == v.t \in {"num", "txt", "bool", "blank", "err"} \/ OtherNumber(v)
 
 Pred(f, v) ==
   IF IsUnspec(v) THEN EAny
   ELSE CASE f = "ISERROR" -> IF Classified(v) \/ v.t \in {"date", "arr"} THEN ETruth(IsErr(v)) ELSE EAny
          [] f = "ISERR" -> IF Classified(v) \/ v.t \in {"date", "arr"} THEN ETruth(IsErr(v) /\ v.c # "#N/A") ELSE EAny
          [] f = "ISNA" -> IF Classified(v) \/ v.t \in {"date", "arr"} THEN ETruth(IsErr(v) /\ v.c = "#N/A") ELSE EAny
-         [] f = "ISNUMBER" -> IF Classified(v) THEN ETruth(v.t = "num") ELSE EAny
+         [] f = "ISNUMBER" -> IF Classified(v) THEN ETruth(v.t = "num" \/ OtherNumber(v)) ELSE EAny
          [] f = "ISTEXT" -> IF Classified(v) THEN ETruth(v.t = "txt") ELSE EAny
          [] f = "ISNONTEXT" -> IF Classified(v) THEN ETruth(v.t # "txt") ELSE EAny
          [] f = "ISLOGICAL" -> IF Classified(v) THEN ETruth(v.t = "bool") ELSE EAny
